@@ -8,9 +8,9 @@ Two halves, both parser level (``Parser(**options).parse(root)`` on a generated 
     definitions of all files - compared by name and value/id with the generator's expectation model.
 (b) the same closures with EXACTLY ONE injected conflict must be rejected with the exception class that belongs to
     the conflict.  The table kinds x placements x order x reserved-range spelling x position of the colliding id in
-    the range x boundary value is enumerated in full in both tiers (vlib.defgen.all_conflict_cases), each case with
-    the core definitions imported and - where the conflict does not need them - also without; random conflicts in
-    random graphs come on top.  Thorough additionally drives a sample through the command line
+    the range x boundary value is enumerated in full in both tiers (vlib.defgen.all_conflict_cases): kinds that need the
+    core definitions with them, the others without, and additionally with them (every case in thorough, a quarter
+    rotating with the seed in quick); random conflicts in random graphs come on top.  Thorough additionally drives a sample through the command line
     (``python -m pyrtma.compile -i root.yaml --py -o out``: exit status 1 for a conflict, 0 otherwise).
 """
 from __future__ import annotations
@@ -32,7 +32,7 @@ RULE = ("(a) Hypothesis draws conflict-free definition closures (1-6 files, 1-3 
         "message, module id, host id (each also against the core's), the same name in each of the 25 ordered pairs of the five shared "
         "namespaces (also against core names), ids outside their range on each side (message, reserved, module, host); the two items are "
         "placed in the same file, parent/child, siblings, cousins (both orders); reserved ranges in every spelling with the colliding id at "
-        "the start, middle and end; the full table is enumerated in both tiers and random combinations are drawn on random graphs. The parser "
+        "the start, middle and end; the full table is enumerated in both tiers (core definitions imported where the kind needs them, for every other case in thorough and a rotating quarter in quick) and random combinations are drawn on random graphs (a quarter of them with the core imported). The parser "
         "must raise the matching ParserError subclass. Non-trivial = (a) a graph in which some file is reachable by >= 2 import paths or lies on "
         "a cycle, (b) a conflict whose two items are in different files; distinct = (a) (shape, #files, graph classes, core imported, "
         "namespaces used), (b) (kind, placement, order, spelling/position/value, core imported).")
@@ -187,14 +187,18 @@ def table_bases():
     return bases
 
 
-def run_table(idx: int, nshards: int, res: Result):
+def run_table(idx: int, nshards: int, res: Result, seed: int = 0, full: bool = True):
+    """Every case of the table once: with the core definitions imported when the conflict needs them, otherwise without
+    (2 ms instead of 60 ms per parse); the cases that do not need the core are additionally run WITH it - all of them in
+    thorough, a quarter (rotating with the seed) in quick."""
     cases = G.all_conflict_cases()
     bases = table_bases()
     for i, case in enumerate(cases):
         if i % nshards != idx:
             continue
         need_core = case["kind"] in G.NEEDS_CORE
-        for core in ((True,) if need_core else (False, True)):
+        both = full or (i // nshards + seed) % 4 == 0
+        for core in ((True,) if need_core else ((False, True) if both else (False,))):
             base = bases[2] if core else bases[i % 2]
             ch = G.RandomChooser(i * 7 + core)
             q = G.inject_conflict(base, case["kind"], case["placement"], ch, swap=case["swap"], variant=case["variant"])
@@ -246,15 +250,18 @@ def cli_case(p: G.Program, res: Result):
 # ----------------------------------------------------------------------------------------------
 
 
-def shard(idx: int, nshards: int, seed: int, n_free: int, n_conf: int, n_cli: int):
+def shard(idx: int, nshards: int, seed: int, n_free: int, n_conf: int, n_cli: int, vseed: int = 0, full: bool = True):
     G.quiet()
     res = Result()
-    run_table(idx, nshards, res)
-    core_w = None  # drawn
-    sb = G.ShrinkBudget(15)
-    hyp_run(sb.body(lambda p: check_free(p, res)), sb.wrap(G.programs(import_coredefs=core_w, max_files=6, allow=ALLOW)), seed, n_free, res)
-    sb = G.ShrinkBudget(15)
-    hyp_run(sb.body(lambda p: check_conflict(p, res)), sb.wrap(G.conflict_programs(import_coredefs=core_w, allow=ALLOW)), seed + 1, n_conf, res)
+    run_table(idx, nshards, res, seed=vseed, full=full)
+    # three quarters of the random closures without the core definitions (a parse costs 2 ms instead of 60 ms), one quarter with
+    for k, (core, share) in enumerate(((False, 3), (True, 1))):
+        sb = G.ShrinkBudget(15)
+        hyp_run(sb.body(lambda p: check_free(p, res)), sb.wrap(G.programs(import_coredefs=core, max_files=6, allow=ALLOW)),
+                seed + 10 * k, max(1, n_free * share // 4), res)
+        sb = G.ShrinkBudget(15)
+        hyp_run(sb.body(lambda p: check_conflict(p, res)), sb.wrap(G.conflict_programs(import_coredefs=core, allow=ALLOW)),
+                seed + 10 * k + 1, max(1, n_conf * share // 4), res)
     if n_cli:
         rnd = G.RandomChooser(seed + 2)
         for k in range(n_cli):
@@ -276,9 +283,10 @@ def run(ctx: RunContext) -> int:
     n_free = ctx.scale(110, 2500)
     n_conf = ctx.scale(90, 2500)
     n_cli = 0 if ctx.quick else 6
-    res = run_shards(shard, [(i, 16, derive_seed(ctx.seed, i), n_free, n_conf, n_cli) for i in range(16)])
-    res.notes.append(f"the conflict table ({len(G.all_conflict_cases())} kind x placement x order x spelling x position x value cases, each with "
-                     "and - where possible - without the core definitions) was enumerated completely")
+    res = run_shards(shard, [(i, 16, derive_seed(ctx.seed, i), n_free, n_conf, n_cli, ctx.seed, not ctx.quick) for i in range(16)])
+    res.notes.append(f"the conflict table ({len(G.all_conflict_cases())} kind x placement x order x spelling x position x value cases) was enumerated "
+                     "completely: kinds that need the core definitions with them, all others without; the latter additionally with the core "
+                     + ("for every case" if not ctx.quick else "for a quarter of the cases (rotating with the seed; every case in thorough)"))
     return conclude(ctx, res, RULE, ASSUME, t0)
 
 
